@@ -20,6 +20,11 @@ EXTENSION = [
     "$[?@.a == undefined]", "$[?@.a != undefined]", "$[?@.a == missing]", "$[?@.a != missing]", "$[?@.a == nil]", "$[?@.a == none]", "$[?@.a == Nil]",
     "$[?@.a == None]", "$[?@.a == Null]", "$[?@.a == True]", "$[?@.a == False]", "$[?^[0].k == @.a]", "$[?@.a == 1 and not @.b or @.c]", "$.[a]", "$.['a']",
     "$[?@.a in 'abc']", "$[?@ in $.o]", "$[?@.s in ['ab', 'x']]", "$..[?# == 'a' && @ == 1]", "$[?_.list contains @.a]", "$[?@.a == _['x']]",
+    # each root identifier inside a filter nested in a query rooted at another one
+    "$[?_.list[?@ == $.k]]", "$.xs[?_.list[?@ == $.k]]", "$[?_.x[?@ == $.k]]", "$[?^[0].list[?@ == _.v]]", "$.xs[?$.list[?@ == _.v && # == 1]]", "$[?_.list[?@ == ^[0].k]]",
+    # alternative operator spellings as operands of the logical operators, unparenthesised
+    "$[?@.b && @.a <> 1]", "$[?@.a <> 1 && @.b]", "$[?@.a <> @.b || @.s]", "$[?@.s and @.a <> 2 or @.b <> 2]", "$[?@.a in [1, 2] && @.b]", "$[?@.b && @.s contains 'b']", "$[?@.b || @.s =~ /a.*/]",
+    "$[?!@.b && @.a <> 1]", "$[?@.a <> 1 == true]",
 ]
 COMPOUND = [
     "$.a | $.b", "$.a[*] | $.b[*]", "$.a[*] & $.b[*]", "$.a[*] & $.b[*] & $.c[*]", "$.a[*] | $.b[*] & $.c[*]", "$.a[*] & $.b[*] | $.c[*]",
